@@ -755,8 +755,9 @@ class Association(threading.Thread):
                 LOGGER.info(log_msg)
                 # Ensure that EVT_ASCE_RECV fires for subscribers
                 self.dul.receive_pdu(wait=False)
-                # A local abort() may already have reported the abort
-                if not self._sent_abort:
+                # A local abort() may already have reported the abort, or
+                #   a release() in another thread the release
+                if not self._sent_abort and not self.is_released:
                     self.is_aborted = True
                     self.is_established = False
                     evt.trigger(self, evt.EVT_ABORTED, {})
